@@ -218,4 +218,13 @@ def openFile (file : Bytes) (rs : List Nat) (coarse : Bool) : String :=
     | some .other => "decode=err pem=err"
     | none => "model-cannot-parse"
 
+/-- the reader's verdict on a (possibly corrupted) copy of a corpus file whose true key / certificate
+    digests are `key`, `cert`: `accept` = opens to exactly that key and certificate, `reject` = any
+    failure (shape unknown to the DER walk, MAC mismatch, decryption / padding / bag errors) -/
+def mutClass (file : Bytes) (rs : List Nat) (key cert : String) : String :=
+  let out := openFile file rs false
+  if out.startsWith s!"decode=ok key={key} cert={cert} " then "accept"
+  else if out.startsWith "decode=ok" then "accept-other"
+  else "reject"
+
 end XC.C21
